@@ -3,7 +3,7 @@
    list is the left operand's followed by the right's; None / '' / [] / {} / invalid / no-header operands
    contribute nothing.  Also property set/get and copy(). *)
 From Coq Require Import ZArith NArith List Bool Lia.
-Require Import Webob.Lib.Val Webob.Lib.PyStr Webob.Model.C03_scan Webob.Model.C19_acceptstr.
+Require Import Webob.Lib.Val Webob.Lib.PyStr Webob.Model.C03_scan Webob.Model.C19_acceptstr Webob.Spec.C19_spec.
 Import ListNotations.
 Local Open Scope N_scope.
 
@@ -22,13 +22,9 @@ Section Algebra.
   Hypothesis Hempty : if f_empty_ok F then f_parse F [] = Some [] else f_parse F [] = None.
   Hypothesis Hfalsy_text : forall v, falsy v = true -> is_none v = false -> f_text F v = [].
 
-  (* a header object as the classes construct it: the parsed list IS the parse of the text *)
-  Definition wf_hdr (h : hdr A) : Prop :=
-    match h with Valid t p => f_parse F t = Some p /\ ok t | _ => True end.
-  (* what a non-header operand contributes *)
-  Definition contrib (v : pyval It Dt) : list A :=
-    if falsy v then []
-    else match f_parse F (f_text F v) with Some p => p | None => [] end.
+  (* Spec/C19_spec.v: wf_hdr F ok h, contrib F v *)
+  Local Notation wf_hdr := (C19_spec.wf_hdr F ok).
+  Local Notation contrib := (C19_spec.contrib F).
 
   Lemma none_falsy (v : pyval It Dt) : is_none v = true -> falsy v = true.
   Proof. destruct v; try discriminate. reflexivity. Qed.
